@@ -332,7 +332,14 @@ class Env:
                 decorated = rpc(Integer(ge=0), _body_style='bare', **kw)(lambda ctx, a: body(ctx, a))
             else:
                 decorated = rpc(Integer(ge=0), **kw)(lambda ctx, a: body(ctx, a))
-            self.svc_cls = make_class(world['svc'], 'Svc', {'op': decorated})
+            methods = {'op': decorated}
+            if world.get('shared') and meth_mgrs:
+                # a second method declared with the very same object (list or manager) under the same keyword
+                sp = world.get('spelling', '_evmgrs')
+                def other(ctx, a):
+                    return 'other'
+                methods['other'] = rpc(Integer, _returns=Unicode, **{sp: kw[sp]})(other)
+            self.svc_cls = make_class(world['svc'], 'Svc', methods)
         self.inp = make_proto(inp, validator)
         self.outp = make_proto(outp, validator)
         self.inp_name, self.outp_name, self.msgpack_keys = inp, outp, msgpack_keys
@@ -1241,7 +1248,7 @@ def oracle(case, obs, inj):
             if seg != o[2]:
                 return ('stray-listener-call:' + tag, 'listener %s/%d called for %s outside a firing of it' % (o[0], o[1], o[2]))
             if (o[0], o[1]) in seen:
-                return ('listener-twice:' + tag, 'listener %s/%d called twice for one firing of %s' % (o[0], o[1], o[2]))
+                return ('listener-twice:' + o[0].rstrip('0123456789'), 'listener %s/%d called twice for one firing of %s' % (o[0], o[1], o[2]))
             seen.add((o[0], o[1]))
             if o[0] != 'app' and o[2] in ('method_context_created', 'method_context_closed'):
                 return ('created-closed-level:' + tag, '%s reached a %s-level listener' % (o[2], o[0]))
@@ -1290,6 +1297,7 @@ def gen_world(rng, raiser=None, rich=True):
     if raiser and raiser[0] == 'meth' and not w['meths']:
         w['meths'].append({'regs': []})
     w['spelling'] = rng.choice(SPELLINGS if len(w['meths']) == 1 else SPELLINGS[2:])
+    w['shared'] = bool(w['meths']) and rng.random() < 0.4       # another method shares the keyword's object
     if raiser:
         level, ev, kind = raiser
         if level == 'app':
@@ -1368,6 +1376,15 @@ def gen_cases(ctx):
                 add(inp, outp, transport, ok, rng.choice(['fault', 'exc']), None, 'shape+user', shape)
                 add(inp, outp, transport, {'type': 'forced', 'stage': rng.choice(PRE_STAGES + ['dispatch', 'serialize']),
                                            'kind': rng.choice(['fault', 'exc'])}, 'ok', None, 'shape+forced', shape)
+            # two methods declared with one and the same list / manager object, under each keyword
+            for sp in SPELLINGS:
+                add(inp, outp, transport, ok, 'ok', None, 'shared-evmgrs')
+                w = cases[-1]['world']
+                w['meths'] = w['meths'][:1] if sp in SPELLINGS[:2] and w['meths'] else (w['meths'] or [{'regs': [['method_call', 3]]}])
+                w['meths'] = w['meths'][:1] if sp in SPELLINGS[:2] else w['meths']
+                w.update(spelling=sp, shared=True)
+                if not mgr_handlers(w['svc'], 'method_call'):
+                    w['svc'].setdefault('regs', []).append(['method_call', 4])
             # a bare output message
             add(inp, outp, transport, ok, 'ok', rng.choice(raisers[:5]), 'out-bare', style='out_bare')
             add(inp, outp, transport, ok, rng.choice(['fault', 'exc']), None, 'out-bare', style='out_bare')
